@@ -16,6 +16,7 @@ EXPLANATION = (
     "C04.K4: every claim name the verifier reads from the KB-JWT is written by the holder's KB-JWT builder, which computes sd_hash with the same function over the same three roots."
     " Exact form: the text hashed into sd_hash is evaluated structurally to its token normal form for 0..3 disclosures (sa/strmodel.py; join, +, format!, push_str loops, once/chain) and must equal jwt~d0~…~d(n-1)~ on the verifier side (K3) and the holder side (K4); only when a builder is outside that model do the rules fall back to the presence of the three roots. When the key-binding code has been dissolved into the constructor's view, K2 is judged under the both-given valuation (the other valuations are K1's)."
     " C04.K2 (f): the algorithm of the KB-JWT's Validation comes from the KB-JWT's own header (or a constant default), never from the issuer-signed JWT (SDJWTCommon.sign_alg / unverified_sd_jwt, or a parser field derived from them); only the constructor(s) of that Validation value are judged, not what the verifier object was computed from earlier."
+    " C04.K2 (b) also requires the audience to be exactly the expected_aud value as given (no normalised or additional alternative)."
 )
 ASSUMPTIONS = [
     "jsonwebtoken::decode enforces signature, algorithm family and the Validation's audience settings (9.x contract)",
@@ -149,7 +150,12 @@ def k2(ctx, fx, A, fn, b, node):
         if aud is not None and not aud_ok:
             # by position: a String parameter that reaches set_audience at every call site from `new` carrying expected_aud
             aud_ok = must_env(aud, lambda x: x.kind == "param" and x.fn is fn and param_carries(fx, A, fn, x.d["idx"], "expected_aud"), env)
-        chk(ctx, fn, line, "b:audience" + tag, aud_ok, "set_audience([expected_aud])", "the Validation's audience is not the verifier's expected_aud")
+        if aud_ok:
+            # ..and nothing but it: a normalised or additional alternative (`[aud.to_lowercase(), aud]`) widens what is accepted
+            alt = common.not_verbatim(aud, lambda x: x.kind == "param")
+            if alt is not None:
+                aud_ok = False
+        chk(ctx, fn, line, "b:audience" + tag, aud_ok, "set_audience([expected_aud])", "the Validation's audience is not exactly the verifier's expected_aud (something other than the value as given is accepted)")
         req = st["required"]
         chk(ctx, fn, line, "b:aud-required" + tag, isinstance(req, set) and "aud" in req, "\"aud\" is a required claim", "\"aud\" is not required (%r): a KB-JWT without aud would pass" % (sorted(req) if isinstance(req, set) else req,))
         chk(ctx, fn, line, "b:validate_aud" + tag, st["validate_aud"] is True, "validate_aud left on", "validate_aud is %r" % (st["validate_aud"],))
